@@ -305,6 +305,11 @@ pub fn run(ctx: &Ctx) -> Report {
                 let progs = [
                     vec![Op::Raw(x, vec![1]), Op::Typed(Kind::Username, b"u".to_vec()), Op::Typed(Kind::Software, b"s".to_vec()), Op::Typed(Kind::Priority, vec![0, 0, 0, 1]), Op::Sha1(0), Op::Sha256(0), Op::Fp],
                     vec![Op::Typed(Kind::Username, b"u".to_vec()), Op::Typed(Kind::Software, b"s".to_vec()), Op::Raw(x, vec![]), Op::Raw(alt, vec![2, 3]), Op::Fp, Op::Raw(x, vec![9])],
+                    // every sealing step tried again once the builder is sealed, beside an attribute of code x
+                    // (seed C11-n: the reserved code 0 doubled as the "nothing" entry of a conflict list)
+                    vec![Op::Raw(x, vec![1]), Op::Sha256(0), Op::Sha256(1), Op::Sha1(0), Op::Fp, Op::Sha256(0), Op::Sha1(0), Op::Fp],
+                    vec![Op::Raw(x, vec![]), Op::Fp, Op::Sha256(0), Op::Sha1(1), Op::Fp, Op::Raw(alt, vec![7])],
+                    vec![Op::Raw(x, vec![5, 6]), Op::Sha1(0), Op::Sha1(1), Op::Sha256(1), Op::Sha256(0), Op::Sha1(0)],
                 ];
                 for ops in progs {
                     let case = Prog { class: 0, method: 1, tid: TID, ops }.to_case("builder_seq");
@@ -386,7 +391,7 @@ pub fn run(ctx: &Ctx) -> Report {
         states,
         transitions,
         exhaustive: true,
-        rule: "all sequences up to the depth over {add typed SOFTWARE/USERNAME/PRIORITY/XOR-MAPPED-ADDRESS, add raw 0xff00/0x7f00/SOFTWARE's code, add SHA-1 integrity, add SHA-256 integrity, add fingerprint, into_owned, clone, measure, clone_from, fork (keep a sibling clone alive; both are looked at after every step), swap (carry on with the sibling)} x {request, error}, and to depth 6 (7) over the attributes of the long-term credential flow {USERNAME, USERHASH, REALM, NONCE, PASSWORD-ALGORITHM typed SHA-256 / raw MD5, PASSWORD-ALGORITHMS, integrity under long- and short-term credentials, fingerprint} x {request, success}; states deduplicated on reference builder state + the builder's complete Debug snapshot; plus, for every 16-bit type code x, two fixed programs that add x as a raw attribute before / after typed attributes, add x ^ 0x40, seal in every way and try x again; plus long builders: 0..=40 (48) distinct filler attributes followed by every tail of up to three operations over {SHA-1, SHA-256, fingerprint, a new raw / typed attribute, into_owned, clone, a repeat of the first / middle / last filler}; distinct_nontrivial = unique states + sweep programs".into(),
+        rule: "all sequences up to the depth over {add typed SOFTWARE/USERNAME/PRIORITY/XOR-MAPPED-ADDRESS, add raw 0xff00/0x7f00/SOFTWARE's code, add SHA-1 integrity, add SHA-256 integrity, add fingerprint, into_owned, clone, measure, clone_from, fork (keep a sibling clone alive; both are looked at after every step), swap (carry on with the sibling)} x {request, error}, and to depth 6 (7) over the attributes of the long-term credential flow {USERNAME, USERHASH, REALM, NONCE, PASSWORD-ALGORITHM typed SHA-256 / raw MD5, PASSWORD-ALGORITHMS, integrity under long- and short-term credentials, fingerprint} x {request, success}; states deduplicated on reference builder state + the builder's complete Debug snapshot; plus, for every 16-bit type code x, five fixed programs that add x as a raw attribute before / after typed attributes, add x ^ 0x40, seal in every way, try every sealing step again on the sealed builder and try x again; plus long builders: 0..=40 (48) distinct filler attributes followed by every tail of up to three operations over {SHA-1, SHA-256, fingerprint, a new raw / typed attribute, into_owned, clone, a repeat of the first / middle / last filler}; distinct_nontrivial = unique states + sweep programs".into(),
         bounds: json!({"depth": depth, "alphabet": 12, "levels": levels}),
         assumptions: vec!["a snapshot difference after a refused operation is an evidence note only (the successor is a new state whose futures are explored)".into()],
         caps_hit: caps,
